@@ -51,7 +51,7 @@ var profiles = map[string]*profile{
 		cacheW: []wk{{model.CGetOrSet, 10}, {model.CGetOrCompute, 12}, {model.CCompute, 10}, {model.CGetAndSet, 8}, {model.CGetAndRefresh, 6}, {model.CSet, 2}, {model.CGetAndDelete, 3}, {model.CGet, 2}},
 		fillBias: "threshold", hashers: defaultHashers},
 	"C06": {prop: "C06", kinds: []string{"cache", "cacheof"}, hotMax: 2, thrMin: 2, thrMax: 3, opsMax: 3, cbAlways: true,
-		cacheW: []wk{{model.CDelete, 10}, {model.CGetAndDelete, 10}, {model.CDeleteExpired, 14}, {model.CSet, 8}, {model.CGetAndSet, 5}, {model.CCompute, 6}, {model.CGet, 4}, {model.CGetOrSet, 3}, {model.CClear, 2}, {model.CGetAndRefresh, 2}}},
+		cacheW: []wk{{model.CDelete, 10}, {model.CGetAndDelete, 10}, {model.CDeleteExpired, 14}, {model.CSet, 8}, {model.CGetAndSet, 5}, {model.CCompute, 6}, {model.CGet, 4}, {model.CGetOrSet, 3}, {model.CClear, 2}, {model.CGetAndRefresh, 2}, {model.CSetCallback, 5}}},
 	"C07": {prop: "C07", kinds: []string{"map", "mapof", "cache", "cacheof"}, hotMax: 3, thrMin: 2, thrMax: 3, opsMax: 3, traverser: true,
 		mapW:   []wk{{model.MStore, 10}, {model.MDelete, 8}, {model.MLoadAndDelete, 4}, {model.MCompute, 6}, {model.MLoadOrStore, 4}, {model.MClear, 5}, {model.MRange, 6}, {model.MLoadAndStore, 3}},
 		cacheW: []wk{{model.CSet, 10}, {model.CDelete, 8}, {model.CGetAndDelete, 4}, {model.CCompute, 6}, {model.CGetOrSet, 4}, {model.CClear, 5}, {model.CRange, 4}, {model.CItems, 4}, {model.CDeleteExpired, 4}, {model.CGetAndSet, 3}},
@@ -325,6 +325,12 @@ func genProgram(rt *rapid.T, pf *profile) *Program {
 				o.D = pick(rt, ttls, "ttl")
 			case model.CSetDefaultExp:
 				o.D = pick(rt, []int64{model.NoExpiration, 0, 25, 777}, "newDefault")
+			case model.CSetCallback:
+				o.On = rapid.Bool().Draw(rt, "install")
+			case model.MRange, model.CRange:
+				if irange(rt, 0, 4, "stopEarly") == 0 {
+					o.N = irange(rt, 1, 2, "stopAfter")
+				}
 			}
 			if i == 0 && p.Mode == "grow" && t == nthr-1 && (o.K == model.MCompute || o.K == model.CCompute) {
 				o.Fn = model.FnStore
